@@ -851,13 +851,22 @@ impl<'a> Parser<'a> {
         let fraction = matches!(self.current, '.' | ',').then(|| {
             let mut numerator = 0_u128;
             let mut denominator = 1_u128;
+            let mut sticky = false;
 
             while let Some(digit) = self.inc().and_then(|ch| ch.to_digit(10)) {
-                // Digits beyond the 24th cannot change the rounded microsecond
+                // Digits beyond the 24th can only decide an exact tie:
+                // it is enough to remember whether one of them is not zero
                 if denominator < MAX_FRACTION_DENOMINATOR {
                     numerator = numerator * 10 + u128::from(digit);
                     denominator *= 10;
+                } else if digit != 0 {
+                    sticky = true;
                 }
+            }
+
+            if sticky {
+                numerator = numerator * 10 + 1;
+                denominator *= 10;
             }
 
             (numerator, denominator)
